@@ -978,9 +978,23 @@ def r6(db, rep):
             n += 1
             key = "%s::write_serialization:copy#%d" % (short, i + 1)
             args = x["c"][1:]
+            if x["cname"] == "copy" and len(args) == 3:
+                # std::copy(X.begin(), X.end(), buffer): whole container
+                b0, e0, d0 = facts.strip_all(args[0]), facts.strip_all(args[1]), facts.strip_all(args[2])
+                def _of(e_, nm):
+                    if e_["k"] == "CXXMemberCallExpr" and e_.get("cname") == nm and e_["c"][0].get("c"):
+                        o_ = facts.strip_all(e_["c"][0]["c"][0])
+                        return o_.get("member") if o_["k"] == "MemberExpr" and o_.get("isfield") else None
+                    return None
+                mb, me = _of(b0, "begin"), _of(e0, "end")
+                if mb and mb == me and d0["k"] == "DeclRefExpr" and d0.get("var") == pb:
+                    rep.ok("R6-cacher-extent", key, facts.loc(f, x), "copies the whole of %s to the start of the layer's region" % mb)
+                else:
+                    rep.violation("R6-cacher-extent", key, facts.loc(f, x), "std::copy does not copy one whole container to the start of the buffer")
+                continue
             if x["cname"] in ("memcpy", "memmove") and len(args) == 3:
                 srcm = [y.get("member") for y in facts.walk(args[1]) if y["k"] == "MemberExpr" and y.get("isfield")]
-                ln = facts.strip_all(args[2])
+                ln = facts.strip_all(facts.inline_locals(f, args[2]))
                 lnm = None
                 if ln["k"] == "CXXMemberCallExpr" and ln.get("cname") == "size" and ln["c"][0].get("c"):
                     o = facts.strip_all(ln["c"][0]["c"][0])
